@@ -487,7 +487,11 @@ void harness(void)
             unsigned acc = (unsigned) binson_parser_get_type(&p) + (unsigned) binson_parser_get_depth(&p);
             /* get_name is not a pure getter: where there is no name (array element) it latches a STATE error. It is
                called after an arbitrary subset of the ops (bit k of IN.seq[3]) so that both continuations are explored. */
+#ifndef SK_LEN
             bbuf *tn = ((IN.seq[3] >> (k & 7)) & 1) ? binson_parser_get_name(&p) : NULL;
+#else
+            bbuf *tn = NULL;       /* concrete-structure queries keep their control flow concrete */
+#endif
             bbuf *ts = binson_parser_get_string_bbuf(&p);
             bbuf *tb = binson_parser_get_bytes_bbuf(&p);
             if (tn != NULL) { for (size_t i = 0; i < NB; i++) { if (i < tn->bsize) acc += tn->bptr[i]; } }
